@@ -10,7 +10,7 @@ from __future__ import annotations
 
 import ast
 import dataclasses
-from typing import Optional
+from typing import Any, Optional
 
 from .model import (AnalysisError, ClassInfo, DescriptorDecl, FuncInfo, Program, self_attr, stmts_no_doc)
 
@@ -122,11 +122,20 @@ class Operand:
     guarded: bool    # `(self._f and self._f.edge)`
 
 
-def parse_edge_chain(e: ast.AST) -> Optional[list[Operand]]:
-    """`(self._a and self._a.last_token) or self._b.last_token` -> operands, else None."""
+def parse_edge_chain(e: ast.AST, resolver: Optional[Any] = None, depth: int = 0) -> Optional[list[Operand]]:
+    """`(self._a and self._a.last_token) or self._b.last_token` -> operands, else None.  `resolver(name)` gives the return expression of
+    another edge property of the same class (`self._x_pivot`), so that a chain may end by delegating to it."""
     parts = e.values if isinstance(e, ast.BoolOp) and isinstance(e.op, ast.Or) else [e]
     out: list[Operand] = []
     for part in parts:
+        if resolver is not None and depth < 8 and isinstance(part, ast.Attribute) and self_attr(part) is not None \
+                and part.attr not in ('first_token', 'last_token'):
+            inner = resolver(part.attr)
+            rest_ = parse_edge_chain(inner, resolver, depth + 1) if inner is not None else None
+            if rest_ is None:
+                return None
+            out.extend(rest_)
+            continue
         if isinstance(part, ast.BoolOp) and isinstance(part.op, ast.And) and len(part.values) == 2:
             g, acc = part.values
             gf = self_attr(g)
@@ -153,7 +162,7 @@ def parse_edge_chain(e: ast.AST) -> Optional[list[Operand]]:
             if guard is None or not isinstance(part.body, ast.Attribute) or self_attr(part.body.value) != guard:
                 return None
             out.append(Operand(guard, part.body.attr, True))
-            rest = parse_edge_chain(part.orelse)
+            rest = parse_edge_chain(part.orelse, resolver, depth + 1)
             if rest is None:
                 return None
             out.extend(rest)
